@@ -1,6 +1,10 @@
 package drv
 
 import (
+	"strconv"
+
+	"github.com/avfs/avfs"
+	"github.com/avfs/avfs/vfs/failfs"
 	"github.com/avfs/avfs/vfs/rofs"
 
 	"bufio"
@@ -75,9 +79,13 @@ func sameInts(a, b []int) bool {
 // Step executes a call and records the event (result + full projection).
 func (s *Session) Step(tr string, i int, c Call, names []string) Event {
 	normCall(&c)
+	s.cons = []string{}
 	res := s.Exec(c)
+	cons := s.cons
+	s.quiet = true
 	snap := s.Project(names)
-	ev := Event{Tr: tr, I: i, Fs: s.Target, Call: c, Res: res, Post: snap.Post, Hs: snap.Hs, Cwd: snap.Cwd, Srt: snap.Srt, Inv: "ok"}
+	s.quiet = false
+	ev := Event{Tr: tr, I: i, Fs: s.Target, Call: c, Res: res, Post: snap.Post, Hs: snap.Hs, Cwd: snap.Cwd, Srt: snap.Srt, Inv: "ok", Cons: cons}
 
 	if ev.Cwd.Parts == nil {
 		ev.Cwd.Parts = []string{}
@@ -98,6 +106,20 @@ func (s *Session) Step(tr string, i int, c Call, names []string) Event {
 	return ev
 }
 
+func sameSeq(a, b []string) bool {
+	if len(a) != len(b) {
+		return false
+	}
+
+	for i := range a {
+		if a[i] != b[i] {
+			return false
+		}
+	}
+
+	return true
+}
+
 func permClass(e string) bool { return e == "EACCES" || e == "EPERM" }
 
 // WrapWith puts a wrapper around the session's file system; calls go through the wrapper from now on
@@ -106,17 +128,57 @@ func (s *Session) WrapWith(tr string, i int, kind string, names []string) Event 
 	s.Base = s.FS
 	s.Wrap = kind
 
-	switch kind {
-	case "rofs":
+	switch {
+	case kind == "rofs":
 		s.FS = rofs.New(s.Base)
+	case kind == "failro":
+		f := failfs.New(s.Base)
+		_ = f.SetFailFunc(failfs.ReadOnlyFunc)
+		s.FS = f
+	case strings.HasPrefix(kind, "failfs"):
+		// "failfs" (no plan) or "failfs:<Fn>:<k>"
+		parts := strings.Split(kind, ":")
+		if len(parts) == 3 {
+			s.FailFn = parts[1]
+			s.FailK, _ = strconv.Atoi(parts[2])
+		}
+
+		s.failCount = map[string]int{}
+		f := failfs.New(s.Base)
+		_ = f.SetFailFunc(func(_ avfs.VFSBase, fn avfs.FnVFS, _ *failfs.FailParam) error {
+			if s.quiet {
+				return nil
+			}
+
+			name := strings.TrimPrefix(fn.String(), "Fn")
+			s.cons = append(s.cons, name)
+			s.failCount[name]++
+
+			if name == s.FailFn && s.failCount[name] == s.FailK {
+				return ErrInjected
+			}
+
+			return nil
+		})
+		s.FS = f
 	}
 
 	c := Call{Op: "wrap", Flag: []string{kind}}
+	if strings.HasPrefix(kind, "failfs") {
+		c.Flag = []string{"failfs"}
+		s.Wrap = "failfs"
+
+		if s.FailFn != "" {
+			c.Flag = []string{"failfs", s.FailFn}
+			c.N = s.FailK
+		}
+	}
+
 	normCall(&c)
 	snap := s.Project(names)
 
 	return Event{Tr: tr, I: i, Fs: s.Target, Call: c, Res: NewRes("ok"), Post: snap.Post, Hs: snap.Hs, Cwd: snap.Cwd,
-		Srt: snap.Srt, Inv: "ok", Mt: s.MtimeDigest()}
+		Srt: snap.Srt, Inv: "ok", Mt: s.MtimeDigest(), Cons: []string{}}
 }
 
 // BuildCalls returns elementary calls (mkdir, writefile, link, symlink, chown, chmod on fresh names)
@@ -314,7 +376,7 @@ func (f *Factory) replayEdge(idx int, e *Edge, names []string) (EdgeResult, erro
 		return r, nil
 	}
 
-	for _, c := range e.Hist {
+	for _, c := range append(append([]Call{}, e.Hist...), e.Wh...) {
 		if !Applicable(f.Target, c) {
 			r.Status = "skip"
 
@@ -340,7 +402,7 @@ func (f *Factory) replayEdge(idx int, e *Edge, names []string) (EdgeResult, erro
 
 	reached := true
 
-	if len(e.Hist) > 0 {
+	if len(e.Hist) > 0 && e.Wrap == "" {
 		reached = EqualPost(trace[len(trace)-1].Post, f.adapt(e.Pre))
 	}
 
@@ -387,17 +449,35 @@ func (f *Factory) replayEdge(idx int, e *Edge, names []string) (EdgeResult, erro
 			normCall(&c)
 			trace = append(trace, s.Step(tr, len(trace)+1, c, names))
 		}
+
+		// the source state of a wrapper edge is the state after the earlier wrapper calls; when the implementation
+		// left the specification's path before, the prefix is what trace validation has to judge
+		if !EqualPost(trace[len(trace)-1].Post, f.adapt(e.Pre)) {
+			r.Status = "unreach"
+			r.Why = "state before the call differs from the specification's"
+			r.Trace = trace
+
+			return r, nil
+		}
 	}
 
 	ev := s.Step(tr, len(trace)+1, e.Call, names)
 	trace = append(trace, ev)
 
-	okRes := ResEqual(e.Call.Op, ev.Res, e.Res) || (e.Wrap == "rofs" && permClass(ev.Res.Err) && permClass(e.Res.Err))
+	okRes := ResEqual(e.Call.Op, ev.Res, e.Res) || ((e.Wrap == "rofs" || e.Wrap == "failro") && permClass(ev.Res.Err) && permClass(e.Res.Err))
+
+	if e.Cons == nil {
+		e.Cons = []string{}
+	}
+
+	if strings.HasPrefix(e.Wrap, "failfs") && !sameSeq(ev.Cons, e.Cons) {
+		okRes = false // the primitives consulted differ from the specification's
+	}
 	okPost := EqualPost(ev.Post, f.adapt(e.Post))
 	okCwd := ev.Cwd.Render() == e.Cwd.Render()
 	okInv := ev.Inv == "ok" && ev.Srt
 
-	if e.Wrap == "rofs" && len(trace) > 1 && trace[len(trace)-2].Mt != ev.Mt {
+	if (e.Wrap == "rofs" || e.Wrap == "failro") && len(trace) > 1 && trace[len(trace)-2].Mt != ev.Mt {
 		okInv = false // a modification time of the base changed under a read-only wrapper
 	}
 
